@@ -31,7 +31,7 @@ def interp_exact(fx, fy, z: F):
 
 @st.composite
 def _pl_cases(draw):
-    mode = draw(st.sampled_from(["grid", "grid", "float", "narrow-int", "int-y"]))
+    mode = draw(st.sampled_from(["grid", "grid", "float", "narrow-int", "int-y", "subnormal"]))
     n = draw(st.integers(1, 9))
     x_dtype = None
     y_dtype = None
@@ -46,6 +46,12 @@ def _pl_cases(draw):
         ys = [float(v) for v in draw(st.lists(pick, min_size=n, max_size=n))]
     if mode == "int-y":
         pass
+    elif mode == "subnormal":
+        # sample values and targets that are small multiples of the smallest positive float (nothing below it
+        # can be represented, so halving or averaging them is not exact)
+        u = 5e-324
+        xs = sorted(k / 4 for k in draw(st.lists(st.integers(0, 12), min_size=n, max_size=n)))
+        ys = [k * u for k in draw(st.lists(st.integers(0, 9), min_size=n, max_size=n))]
     elif mode == "narrow-int":
         # sample points held in a narrow signed integer type, spread over its whole range (gaps wider
         # than the type's maximum)
@@ -66,6 +72,14 @@ def _pl_cases(draw):
             ys[i] = ys[i - 1]
     scalar = draw(st.booleans())
     T = 1 if scalar else draw(st.integers(0, 4))
+    if mode == "subnormal":
+        for i in range(1, n):
+            if xs[i] == xs[i - 1]:
+                ys[i] = ys[i - 1]
+        scalar = draw(st.booleans())
+        T = 1 if scalar else draw(st.integers(0, 4))
+        ts = [k * 5e-324 for k in draw(st.lists(st.integers(0, 10), min_size=T, max_size=T))]
+        return dict(x=xs, y=ys, t=ts, scalar=scalar, mode=mode, x_dtype=None, y_dtype=None, t_same=False)
     cand = st.one_of(st.sampled_from(ys), st.sampled_from(ys).map(lambda v: v + 0.25),
                      st.sampled_from([-5.0, 5.0, 0.1, 2e3, -2e3]),
                      st.floats(min_value=min(ys) - 1, max_value=max(ys) + 1, allow_nan=False))
@@ -78,11 +92,11 @@ def _pl_cases(draw):
     return dict(x=xs, y=ys, t=ts, scalar=scalar, mode=mode, x_dtype=x_dtype, y_dtype=y_dtype, t_same=t_same)
 
 
-def check_solutions(xs, ys, ts, res, ctx):
+def check_solutions(xs, ys, ts, res, ctx, floor=1.0):
     """Shared oracle: res is a list with one array per target."""
     n = len(xs)
     fx, fy = [F(v) for v in xs], [F(v) for v in ys]
-    yscale = max(1.0, max(abs(v) for v in ys), max((abs(t) for t in ts), default=0.0))
+    yscale = max(floor, max(abs(v) for v in ys), max((abs(t) for t in ts), default=0.0))
     slopes = [abs((ys[i + 1] - ys[i]) / (xs[i + 1] - xs[i])) for i in range(n - 1) if xs[i + 1] > xs[i]]
     xmax = max(abs(v) for v in xs)
     tol = 1e-9 * yscale + 16 * 2.3e-16 * max(xmax, 1e-300) * (max(slopes) if slopes else 0.0)
@@ -173,7 +187,8 @@ def check_pl(case):
         res = [res]
     else:
         require(isinstance(res, list), "pl:array-target-not-list", f"{ctx}: {type(res).__name__}")
-    stats = check_solutions(xs, ys, ts, res, ctx)
+    # (subnormal values: the residual is compared as a float, i.e. to within half the smallest positive float)
+    stats = check_solutions(xs, ys, ts, res, ctx, floor=0.0 if case["mode"] == "subnormal" else 1.0)
     require(np.array_equal(x_a, x0) and np.array_equal(y_a, y0), "pl:mutated-input", ctx)
     labels = [f"mode:{case['mode']}"] + [k for k, v in stats.items() if v]
     return dict(nontrivial=any(stats.values()), labels=labels)
